@@ -101,7 +101,16 @@ class Run(object):
         out.set_verbosity(cfg.get("verbosity", 0))
         out.set_quiet(bool(cfg.get("quiet")))
         self.out = out
-        self.pb = pbmod.ProgressBar(out, cfg["max"], cfg["min"])
+        if cfg.get("min_via_setter") and cfg["min"] > 0:
+            # the minimum interval given after construction instead of to the constructor
+            self.pb = pbmod.ProgressBar(out, cfg["max"], 0)
+            self.pb.min_seconds_between_redraws(cfg["min"])
+        else:
+            self.pb = pbmod.ProgressBar(out, cfg["max"], cfg["min"])
+        if cfg.get("redraw_freq"):
+            self.pb.set_redraw_frequency(cfg["redraw_freq"])
+        if cfg.get("max_between") is not None:
+            self.pb.max_seconds_between_redraws(cfg["max_between"])
         self.pb.set_bar_width(cfg["width"])
         if cfg.get("chars"):
             self.pb.set_bar_character(cfg["chars"][0])
@@ -380,6 +389,9 @@ def random_case():
         "quiet": st.integers(0, 9).map(lambda x: x == 0),
         "verbosity": st.sampled_from([0, 0, 1, 2, 4]),
         "chars": st.sampled_from([None, None, ["#", ".", ">"], ["#", "-", ""]]),
+        "min_via_setter": st.booleans(),
+        "redraw_freq": st.sampled_from([None, None, 1, 3]),
+        "max_between": st.sampled_from([None, None, 0.05, 5]),
     })
     op = st.one_of(
         st.just(["start"]), st.tuples(st.just("start"), st.sampled_from([1, 5, 20])).map(list),
